@@ -139,6 +139,23 @@ EXOG = """
     log(z) = 0.5*log(z{-1}) + 0.1*x;
 """
 
+AUTOVAL = """
+!transition-variables
+    y, c
+!log-variables
+    y
+!transition-shocks
+    ey
+!parameters
+    g, rc, lag_ratio, lag_diff
+!transition-equations
+    y = g*y{-1}*exp(ey);
+    c = rc*c{-1} + (1-rc)*lag_ratio + 0*lag_diff;
+!steady-autovalues
+    lag_ratio = y{-1}/y{-2};
+    lag_diff = y{-1} - y{-2};
+"""
+
 SEQ_A = """
 !parameters
     c0, ss
@@ -175,7 +192,8 @@ TEMPLATES = {
                 "init": {}, "shocks": ["ex", "ez"], "shock_size": 1.0, "measurement": True},
     "nonlin": {"cls": "sim", "source": NONLIN, "flags": {"flat": True},
                "params": {"alpha": (0.25, 0.4), "beta": (0.95, 0.99), "delta": (0.03, 0.1), "rho": (0.5, 0.9), "g": (0.9, 1.2)},
-               "init": {"y": 1.0, "k": 5.0, "c": 0.8, "a": 1.0}, "shocks": ["ea"], "shock_size": 0.01, "measurement": False},
+               "init": {"y": 1.0, "k": 5.0, "c": 0.8, "a": 1.0}, "shocks": ["ea"], "shock_size": 0.01, "measurement": False,
+               "logly_names": ["y", "k", "c", "a"], "growth": True},
     "determ": {"cls": "sim", "source": DETERMINISTIC, "flags": {"linear": True, "deterministic": True},
                "params": {"rx": (0.1, 0.9), "mu": (-1.0, 2.0), "g": (0.1, 0.8)},
                "init": {}, "shocks": [], "shock_size": 0.0, "measurement": False},
@@ -191,6 +209,17 @@ TEMPLATES = {
     "exog": {"cls": "sim", "source": EXOG, "flags": {"flat": True, "deterministic": True},
              "params": {"rx": (0.2, 0.8), "mu": (0.5, 1.5)},
              "init": {"w": 2.0, "v": 0.1, "x": 1.0, "z": 1.0}, "shocks": [], "shock_size": 0.0, "measurement": False},
+    # parameters computed from the steady state by a !steady-autovalues block whose right-hand sides read lags of a
+    # growing variable: the compiled updater depends on the log status, which change_logly flips later
+    "autoval": {"cls": "sim", "source": AUTOVAL, "flags": {},
+                "params": {"g": (1.0, 1.05), "rc": (0.2, 0.8)},
+                "init": {"y": {"t": [1.0, 1.02]}, "c": 1.0, "lag_ratio": 1.0, "lag_diff": 0.0},
+                "shocks": ["ey"], "shock_size": 0.01, "measurement": False, "logly_names": ["y", "c"], "growth": True,
+                "autovalues": True},
+    # the same linear model created with a default standard deviation of its own: it is part of what a replica carries
+    "lin_bwd_std": {"cls": "sim", "source": LIN_BWD, "flags": {"linear": True}, "build_kw": {"default_std": 0.5},
+                    "params": {"rx": (0.1, 0.9), "rz": (0.1, 0.9), "k": (-0.5, 0.5), "mu": (-1.0, 2.0)},
+                    "init": {}, "shocks": ["ex", "ez"], "shock_size": 1.0, "measurement": True},
     "seq_a": {"cls": "seq", "source": SEQ_A, "params": {"c0": (0.2, 0.9), "ss": (0.1, 2.0)}},
     "seq_b": {"cls": "seq", "source": SEQ_B, "params": {"c0": (0.2, 0.9), "c1": (0.1, 0.8), "ss": (0.5, 2.0)}},
     "var1": {"cls": "var", "names": ["x", "z"], "order": 1, "intercept": True},
@@ -303,6 +332,7 @@ class SimAdapter:
             kw["context"] = ctx
         if t.get("autodeclare_as"):
             kw["autodeclare_as"] = t["autodeclare_as"]
+        kw.update(t.get("build_kw", {}))
         m = ir.Simultaneous.from_string(t["source"], **kw)
         if ctx is not None:
             # the dict belongs to the caller, who goes on using it (say, for a second model): nothing the caller does
@@ -346,6 +376,12 @@ class SimAdapter:
             m.reset_stds()
         elif k == "change_logly":
             m.change_logly(op["logly"], list(op["names"]))
+        elif k == "override_tolerance":
+            m.override_tolerance(**op["values"])
+        elif k == "reset_tolerance":
+            m.reset_tolerance()
+        elif k == "autovalues":
+            m.update_steady_autovalues()
         elif k == "portable_roundtrip":
             import json
             ir = _irispie()
@@ -370,6 +406,7 @@ class SimAdapter:
         out = {"nv": m.num_variants, "desc": m.get_description(),
                "flags": [m.is_linear, m.is_flat, m.is_deterministic]}
         out["quantities"] = [[q.human, str(q.kind), q.logly, q.description] for q in m.quantities]
+        out["tolerance"] = {k: fl(v) for k, v in sorted(dict(m.get_tolerance()).items())}
         out["dynamic"] = list(m.get_dynamic_equations())
         out["steady_eq"] = list(m.get_steady_equations())
         nv = m.num_variants
